@@ -7,6 +7,7 @@ mod hgen;
 mod model;
 mod props;
 mod run;
+mod served;
 mod sqlsim;
 mod stmt;
 mod sup;
